@@ -35,6 +35,8 @@ type e2SchedArgs struct {
 	Policy     schedPolicy `json:"policy"`      // default schedule around which deviations are counted
 	GiveUps    int         `json:"give_ups"`    // how often a caller may give up (cancel its context) in the middle of a push-pull call
 	RepoPoints bool        `json:"repo_points"` // statements of the repository layer (server/mongodb) are scheduling points
+	FailLabel  string      `json:"fail_label"`  // one database command fails during the concurrent part: the FailNth-th one with this label ("insert:-_-Snapshots")
+	FailNth    int         `json:"fail_nth"`
 }
 
 // callers whose map iterations run in reversed key order (see verifrt.OrderHook)
@@ -318,6 +320,9 @@ func init() {
 			}
 			verifrt.GoHook = func(site string) { m.sys.Sched.Gate("go:" + site) }
 			verifrt.PointHook = nil
+			if sa.FailLabel != "" {
+				m.sys.DB.SetFailNth(sa.FailLabel, sa.FailNth)
+			}
 			if sa.RepoPoints {
 				// the repository layer's statements are scheduling points too (between building a command's arguments and issuing it)
 				verifrt.PointHook = func(site string) {
